@@ -578,6 +578,18 @@ def tf_cond(num, den, x, xq=None):
 
 class C04(Family):
     prop = "C04"
+    # source-text tie (notes/NOTES-py2lean-eval.md): Generated/Eval*.lean are rewritten from the text of
+    # TransferFunction.horner / __call__, StateSpace.horner / _has_zero_at / __call__, LTI._dcgain /
+    # frequency_response (+ the dcgain / freqresp wrappers) of the tree under check on every run and proved
+    # equal to the model (one small file per function group, so that an edit rebuilds little)
+    extra_modules = ["CtrlVerif.Props.C04GenTF", "CtrlVerif.Props.C04GenZero", "CtrlVerif.Props.C04GenSS",
+                     "CtrlVerif.Props.C04GenDc", "CtrlVerif.Props.C04GenFreq", "CtrlVerif.Props.C04Gen"]
+
+    def pre_build(self):
+        import os
+        from core import py2lean_eval, leanproj
+        problems, self.gen_info = py2lean_eval.regenerate(os.environ.get("VERIF_REPO") or "/repo", leanproj.LEAN)
+        return problems
     externals = [
         "numpy.linalg.solve (exact counterpart det != 0 / det^-1 * adjugate in the model; LinAlgError <-> det = 0 "
         "on data whose LU factorisation is exact)",
